@@ -971,8 +971,10 @@ impl CxxCodeBodyTranslator {
                 }
                 ConstantValue::Integer(v) => v.to_string(),
                 ConstantValue::Float(v) => format!("{v:e}"),
-                ConstantValue::CString(v) => format!("{v:?}"), // TODO: escape per C spec)
-                ConstantValue::QString(v) => format!("QStringLiteral({v:?})"),
+                ConstantValue::CString(v) => format_cxx_narrow_string_literal(v),
+                ConstantValue::QString(v) => {
+                    format!("QStringLiteral({})", format_cxx_utf16_string_literal(v))
+                }
                 ConstantValue::NullPointer => "nullptr".to_owned(),
                 ConstantValue::EmptyList => "{}".to_owned(),
             },
@@ -982,6 +984,51 @@ impl CxxCodeBodyTranslator {
             Operand::Void(_) => "void()".to_owned(),
         }
     }
+}
+
+/// Formats the given string as the body of a C++ `u"..."` literal. (`QStringLiteral()`)
+///
+/// Rust's `{:?}` can't be used since `\u{..}` and `\0` followed by a digit are not what
+/// C++ expects. Control characters are written as three-digit octal escapes, which cannot
+/// be extended by the following character, and non-ASCII characters as universal character
+/// names so the result doesn't depend on the source file encoding.
+fn format_cxx_utf16_string_literal(s: &str) -> String {
+    let mut out = String::with_capacity(s.len() + 2);
+    out.push('"');
+    for c in s.chars() {
+        match c {
+            '"' => out.push_str("\\\""),
+            '\\' => out.push_str("\\\\"),
+            '\n' => out.push_str("\\n"),
+            '\t' => out.push_str("\\t"),
+            '\r' => out.push_str("\\r"),
+            ' '..='~' => out.push(c),
+            _ if (c as u32) < 0xa0 => out.push_str(&format!("\\{:03o}", c as u32)),
+            _ if (c as u32) <= 0xffff => out.push_str(&format!("\\u{:04x}", c as u32)),
+            _ => out.push_str(&format!("\\U{:08x}", c as u32)),
+        }
+    }
+    out.push('"');
+    out
+}
+
+/// Formats the given string as a narrow C++ string literal of UTF-8 bytes.
+fn format_cxx_narrow_string_literal(s: &str) -> String {
+    let mut out = String::with_capacity(s.len() + 2);
+    out.push('"');
+    for b in s.bytes() {
+        match b {
+            b'"' => out.push_str("\\\""),
+            b'\\' => out.push_str("\\\\"),
+            b'\n' => out.push_str("\\n"),
+            b'\t' => out.push_str("\\t"),
+            b'\r' => out.push_str("\\r"),
+            b' '..=b'~' => out.push(b as char),
+            _ => out.push_str(&format!("\\{:03o}", b)),
+        }
+    }
+    out.push('"');
+    out
 }
 
 fn member_access_op(a: &tir::Operand) -> &'static str {
